@@ -1,6 +1,7 @@
 (* C03 parts (b) and (c) - property theorems only.  Same closed system and hypotheses as C01. *)
 From Elvis Require Import Model.Base Model.U32 Model.Tcb Model.TcpNet
-  Proofs.TcbSafetyDefs Proofs.TcbSafetyThms.
+  Proofs.TcbSafetyDefs Proofs.TcbSafetyThms Proofs.TcbLiveThm Proofs.TcbLiveEnd Proofs.TcbLiveWinRound
+  Proofs.TcbLiveCloseSys Proofs.TcbLiveClose2Sys.
 Local Open Scope Z_scope.
 
 (* (b) when both sides are synchronised, each side's IRS is the peer's ISS and its next expected
@@ -38,3 +39,53 @@ Theorem C03_data_before_fin : forall (c : config) (b : bool) (ls : list label) (
   end.
 Proof. exact data_before_fin_explicit. Qed.
 Print Assumptions C03_data_before_fin.
+
+(* (d), PARTIAL: release after both sides have closed.  [close_trace] = A closes, one loss-free
+   round, B closes, two loss-free rounds, then A's 2*MSL timer expires (LTick SA 2001).  From EVERY
+   quiescent state both endpoints are released (B by the final ACK of its FIN in LAST-ACK, A by the
+   2*MSL wait in TIME-WAIT), nothing is left in flight, nothing was reset, and no data is lost.
+   Missing for the full clause (see also the simultaneous close below): B closing first, closes
+   with data still queued or in flight, and arbitrary fair schedules. *)
+Theorem C03_release_sequential_partial : forall (c : config) (s : sys) (a b : Z),
+  Quiescent c s a b ->
+  let s' := run c s close_trace in
+  endA s' = EDead /\ endB s' = EDead /\ netA s' = [] /\ netB s' = [] /\ panicked s' = false /\
+  subA s' = subA s /\ subB s' = subB s /\ delivered s' SA = delivered s SA /\ delivered s' SB = delivered s SB.
+Proof. exact release_explicit. Qed.
+Print Assumptions C03_release_sequential_partial.
+
+(* the whole life of a connection, for every configuration: open (passive or simultaneous), any
+   sequence of writes of any size in both directions (each followed by its loss-free rounds), then
+   the closing sequence: both endpoints are released and every byte written was delivered to the
+   peer application exactly once and in order *)
+Theorem C03_connection_lifecycle_partial :
+  forall (c : config) (listenB : bool) (ws : list (side * list Z)),
+  u32 (issA c) -> u32 (issB c) -> 100 <= mtuA c <= 65535 -> 100 <= mtuB c <= 65535 ->
+  (forall w, In w ws -> 0 < zlen (snd w)) ->
+  let s := run c (init_sys listenB) (open_trace listenB ++ any_write_trace ws ++ close_trace) in
+  endA s = EDead /\ endB s = EDead /\ netA s = [] /\ netB s = [] /\ panicked s = false /\
+  forall x, sub_of s x = concat (chunks x ws) /\ delivered s (other x) = concat (chunks x ws).
+Proof. exact release_from_start_explicit. Qed.
+Print Assumptions C03_connection_lifecycle_partial.
+
+(* (d), simultaneous close: [close_both_trace] = both sides close, two loss-free rounds, then both
+   2*MSL timers expire.  Both endpoints go FIN-WAIT-1 -> CLOSING -> TIME-WAIT (at A the ACKs of its
+   FIN overtake B's FIN, wait in the reassembly heap and are processed right after the FIN) and are
+   released by the 2*MSL wait, from EVERY quiescent state; nothing is reset, lost or left in flight. *)
+Theorem C03_release_simultaneous_partial : forall (c : config) (s : sys) (a b : Z),
+  Quiescent c s a b ->
+  let s' := run c s close_both_trace in
+  endA s' = EDead /\ endB s' = EDead /\ netA s' = [] /\ netB s' = [] /\ panicked s' = false /\
+  subA s' = subA s /\ subB s' = subB s /\ delivered s' SA = delivered s SA /\ delivered s' SB = delivered s SB.
+Proof. exact release_simultaneous_explicit. Qed.
+Print Assumptions C03_release_simultaneous_partial.
+
+Theorem C03_connection_lifecycle_simultaneous_partial :
+  forall (c : config) (listenB : bool) (ws : list (side * list Z)),
+  u32 (issA c) -> u32 (issB c) -> 100 <= mtuA c <= 65535 -> 100 <= mtuB c <= 65535 ->
+  (forall w, In w ws -> 0 < zlen (snd w)) ->
+  let s := run c (init_sys listenB) (open_trace listenB ++ any_write_trace ws ++ close_both_trace) in
+  endA s = EDead /\ endB s = EDead /\ netA s = [] /\ netB s = [] /\ panicked s = false /\
+  forall x, sub_of s x = concat (chunks x ws) /\ delivered s (other x) = concat (chunks x ws).
+Proof. exact lifecycle_simultaneous_explicit. Qed.
+Print Assumptions C03_connection_lifecycle_simultaneous_partial.
